@@ -46,6 +46,18 @@ def _mk_frame(ev, keys):
     telegram = Telegram(destination_address=GroupAddress(ev["da"]), payload=payload)
     key = bytes.fromhex(keys[str(ev["da"])])
     how = ev["how"]
+    if how == "garbage":
+        # no key needed: A_Sec APDU of minimal / odd length written by hand: SCF | counter | glen octets | 4 octets "MAC"
+        r = _Rng(ev["pseed"])
+        if ev["glen"] < 0:  # shorter than a MAC: 13 - 1 .. 13 - 4 octets of A_Sec APDU
+            body = r.randbytes(4 + ev["glen"])
+        else:
+            body = r.randbytes(ev["glen"]) + (bytes(4) if ev["pseed"] % 3 == 0 else r.randbytes(4))
+        tpdu = bytes((0x03, 0xF1, ev["gscf"])) + ev["n"].to_bytes(6, "big") + body
+        npdu = len(tpdu) - 1
+        raw = (bytes((0x29, 0, 0xBC if npdu <= 15 else 0x3C, 0xE0)) + ev["sa"].to_bytes(2, "big") + ev["da"].to_bytes(2, "big")
+               + bytes((npdu,)) + tpdu)
+        return raw, bytes(payload.to_knx())
     if how == "wrongkey":
         key = bytes(x ^ 0x5A for x in key)
     if ev.get("via") == "outgoing" and ev["n"] > 0:
@@ -120,9 +132,12 @@ def _history(rng):
             ev["n"] = max(0, nxt[sa] - rng.randrange(2, 6))
             ev["tag"] = "reorder"
         elif r < 0.90:
-            ev["how"] = rng.choice(("badmac", "badbody", "wrongkey", "badseq"))
+            ev["how"] = rng.choice(("badmac", "badbody", "wrongkey", "badseq", "garbage", "garbage"))
             ahead = rng.choice((0, 1, 5, 1 << 20, 1 << 40))
             ev["n"] = min(SEQ_MAX, nxt[sa] + ahead)
+            if ev["how"] == "garbage":
+                ev["glen"] = rng.choice((0, 0, 0, 1, 1, 2, 3, -1, -2, -4))  # empty secured APDU, 1..3 octets, shorter than a MAC
+                ev["gscf"] = rng.choice((0x10, 0x10, 0x00))
             if ev["how"] == "badseq":
                 ev["n2"] = min(SEQ_MAX, ev["n"] + rng.choice((1, 2, 1 << 16, 1 << 32)))
                 if ev["n2"] == ev["n"]:
@@ -146,12 +161,15 @@ def _run_history(ctx, hist):
     rx = Node(keys, dict(initial), own_address=hist["rx"])
     last_delivered: dict[int, int] = {}
     failed_since: dict[int, int] = {}  # highest counter of a failed frame since the last delivery, per sender
+    failed_how: dict[int, set[str]] = {}
     trace = []
     for i, ev in enumerate(hist["events"]):
         raw, apdu = _mk_frame(ev, hist["keys"])
         sa = ev["sa"]
         n = ev["n2"] if ev["how"] == "badseq" else ev["n"]
         assert seq_of(raw) == n
+        if ev["how"] == "garbage":
+            ctx.count(f"garbage_secured_apdu_len_{ev['glen']}")
         known = sa in initial
         valid = ev["how"] == "genuine"
         out = rx.feed(raw)
@@ -190,6 +208,7 @@ def _run_history(ctx, hist):
                 return
             last_delivered[sa] = n
             failed_since.pop(sa, None)
+            failed_how.pop(sa, None)
             continue
         # -- not delivered
         ctx.count("not_delivered")
@@ -198,6 +217,7 @@ def _run_history(ctx, hist):
             continue
         if not valid:
             ctx.count("forged_rejected")
+            failed_how.setdefault(sa, set()).add(ev["how"] + (f"-{ev['glen']}" if ev["how"] == "garbage" else ""))
             failed_since[sa] = max(failed_since.get(sa, -1), n)
             continue
         reference = last_delivered.get(sa)
@@ -209,7 +229,7 @@ def _run_history(ctx, hist):
             reference = initial[sa]
         if n > reference:
             if failed_since.get(sa, -1) >= n:
-                ctx.violation("failed-frame-advanced-the-counter", dict(wit, failed_counter=failed_since[sa]),
+                ctx.violation("failed-frame-advanced-the-counter", dict(wit, failed_counter=failed_since[sa], failed_kinds=sorted(failed_how.get(sa, []))),
                               f"genuine frame {n} > last valid {reference} dropped after a failed frame with counter {failed_since[sa]}")
             else:
                 ctx.violation("fresh-genuine-frame-dropped", wit, f"genuine frame with counter {n} > last valid {reference} was not delivered")
@@ -415,7 +435,7 @@ def _outgoing_wire(ctx, loop, spec):
 def run(ctx):
     rng = ctx.rng
     ctx.rule = (
-        "receive: history = list of (sender, GA, counter, genuine|replay|reorder|forged(badmac/badbody/wrongkey/lifted counter)|arbitrary), "
+        "receive: history = list of (sender, GA, counter, genuine|replay|reorder|forged(badmac/badbody/wrongkey/lifted counter/hand-written A_Sec with empty, 1..3 octet or shorter-than-MAC body)|arbitrary), "
         "distinct = string of (kind, delivered?) per event; outgoing: start = 2^48 - k, k = 0..6, k + 4 sends over 1..2 GAs by "
         "outgoing_cemi or send_telegram, plus random starts; wire runs: 6..15 sends (write/response/read, 1..3 keyed GAs + one unkeyed, "
         "direct / TelegramQueue / two concurrent send_telegram) against an interface with a scripted outcome per hand-off "
@@ -423,7 +443,7 @@ def run(ctx):
         "frames that reached the interface must be strictly increasing"
     )
     ctx.require("histories", "events_genuine", "events_replay", "events_reorder", "events_forged", "events_arbitrary", "delivered",
-                "forged_rejected", "stale_rejected", "unknown_sender_rejected", "outgoing_runs", "outgoing_frames", "exhaustion_errors",
+                "forged_rejected", "stale_rejected", "garbage_secured_apdu_len_0", "garbage_secured_apdu_len_1", "garbage_secured_apdu_len_-1", "unknown_sender_rejected", "outgoing_runs", "outgoing_frames", "exhaustion_errors",
                 "outgoing_frames_accepted_by_receiver", "wire_runs", "wire_secured_frames", "wire_outcome_ok", "wire_outcome_slow",
                 "wire_outcome_fail_after", "wire_outcome_noconf", "wire_exhaustion_errors", "wire_runs_reaching_last_counter")
     loop = new_loop()
